@@ -148,12 +148,12 @@ func EnsureTreeState(baseDir string, globs []string, content map[string]map[stri
 		dirChanged, dirRemoved, err := EnsureDirStateGlobs(path, globs, dirContent)
 		changed = appendWithPrefix(changed, relPath, dirChanged)
 		removed = appendWithPrefix(removed, relPath, dirRemoved)
+		if len(dirRemoved) != 0 {
+			maybeEmpty = append(maybeEmpty, relPath)
+		}
 		if err != nil {
 			firstErr = err
 			break
-		}
-		if len(removed) != 0 {
-			maybeEmpty = append(maybeEmpty, relPath)
 		}
 	}
 	// As with EnsureDirState, if an error occurred we want to
@@ -170,7 +170,7 @@ func EnsureTreeState(baseDir string, globs []string, content map[string]map[stri
 			}
 			_, dirRemoved, _ := EnsureDirStateGlobs(path, globs, nil)
 			removed = appendWithPrefix(removed, relPath, dirRemoved)
-			if len(removed) != 0 {
+			if len(dirRemoved) != 0 {
 				maybeEmpty = append(maybeEmpty, relPath)
 			}
 		}
